@@ -1131,4 +1131,46 @@ the status update -/
 def ruleSetEvent (g : StatusGuards) (parts : Nat) (answers : List PatchAnswer) : Nat → Out Unit × Nat :=
   fun handled => (updateStatus g parts answers, handled + 1)
 
+/-! ### What a RuleSet resource holds: the mechanism configs are deep-copied on the informer's goroutine
+
+`updateStatus` copies the resource it was handed (`rs.DeepCopy()`, and once more inside `NewJSONPatch(…).Data()`)
+before it touches the status, for every event, whether the processor accepted the rule set or not. The copy reaches
+`config.MechanismConfig.DeepCopyInto` for the `config` of every `execute` / `on_error` entry: an untyped object whose
+content the CRD does not constrain (unknown fields are preserved), so any JSON value may sit in it, nulls included. -/
+
+def Val.isNull : Val → Bool
+  | .null => true
+  | _ => false
+
+mutual
+  /-- a structural copy of a decoded value. `nullElem`: a null element of a list is copied as null (what the JSON
+  round trip of `MechanismConfig.DeepCopyInto` does: `json.Marshal` writes `null`, `json.Unmarshal` reads it back);
+  `false` stands for a copy that dereferences every element. -/
+  def copyVal (nullElem : Bool) : Val → Out Val
+    | .list l => (copyList nullElem l).bind fun l' => .ok (.list l')
+    | .map m => (copyFields nullElem m).bind fun m' => .ok (.map m')
+    | v => .ok v
+  def copyList (nullElem : Bool) : List Val → Out (List Val)
+    | [] => .ok []
+    | v :: vs =>
+      if v.isNull && !nullElem then .panic
+      else (copyVal nullElem v).bind fun v' => (copyList nullElem vs).bind fun vs' => .ok (v' :: vs')
+  def copyFields (nullElem : Bool) : List (String × Val) → Out (List (String × Val))
+    | [] => .ok []
+    | (k, v) :: rest =>
+      (copyVal nullElem v).bind fun v' => (copyFields nullElem rest).bind fun rest' => .ok ((k, v') :: rest')
+end
+
+/-- `RuleSet.DeepCopy`: the configs of all mechanism references of all rules, one after the other -/
+def copyConfigs (nullElem : Bool) : List Val → Out Unit
+  | [] => .ok ()
+  | c :: cs => (copyVal nullElem c).bind fun _ => copyConfigs nullElem cs
+
+/-- a RuleSet event on the informer's goroutine, the content of the resource included: the handler ends with
+`updateStatus`, which first copies the resource (`configs`: the `config` values in it) and then does what
+`ruleSetEvent` describes -/
+def ruleSetEventWith (g : StatusGuards) (nullElem : Bool) (configs : List Val) (parts : Nat)
+    (answers : List PatchAnswer) : Nat → Out Unit × Nat :=
+  fun handled => ((copyConfigs nullElem configs).bind fun _ => updateStatus g parts answers, handled + 1)
+
 end Heimdall.Loaders
